@@ -71,13 +71,11 @@ theorem parseCorner_str (s : String) : parseCorner (.str s) = .ok (cornerOfText 
     · simp [h]
   · rfl
 
-/-- conformance of a table cell: non-empty polygon, conformant lines each with a text,
+/-- conformance of a table cell: non-empty polygon, conformant lines (with or without text),
     parsable orientation, CornerPts with some text -/
 def cellOk (c : SrcCell) : Bool :=
   !c.coords.isEmpty
-  && c.lines.all (fun l => lineOk l && (match (mirrorLine l).text with
-      | .str _ => true
-      | _ => false))
+  && c.lines.all lineOk
   && (match c.orientation with
       | none => true
       | some o => isFloatLit o)
@@ -93,16 +91,23 @@ theorem mapM_ok_of_forall {α β : Type} (F : α → Res β) (g : α → β) (l 
     simp only [List.mapM_cons, h x (by simp), ih (fun y hy => h y (by simp [hy])), List.map_cons]
     rfl
 
-theorem cellValue_mirror (ls : List SrcLine)
-    (h : ∀ l ∈ ls, ∃ s, (mirrorLine l).text = .str s) :
-    cellValue (ls.map mirrorLine) = .ok (joinSp ((ls.map mirrorLine).map lineTextStr)) := by
+theorem lineTextRes_mirror (l : SrcLine) : lineTextRes (mirrorLine l) = .ok (lineTextOpt (mirrorLine l)) := by
+  have h := goodLine_mirror l
+  unfold lineTextRes lineTextOpt
+  cases ht : (mirrorLine l).text with
+  | none => rfl
+  | str s => rfl
+  | other => exact absurd ht h
+
+/-- the value of a cell: the space-joined texts of those of its lines that have a text -/
+theorem cellValue_mirror (ls : List SrcLine) :
+    cellValue (ls.map mirrorLine) = .ok (joinSp ((ls.map mirrorLine).filterMap lineTextOpt)) := by
   unfold cellValue
-  rw [mapM_ok_of_forall _ lineTextStr (ls.map mirrorLine) (by
+  rw [mapM_ok_of_forall _ lineTextOpt (ls.map mirrorLine) (by
     intro x hx
-    obtain ⟨l, hl, rfl⟩ := List.mem_map.mp hx
-    obtain ⟨s, hs⟩ := h l hl
-    simp [hs, lineTextStr])]
-  rfl
+    obtain ⟨l, _, rfl⟩ := List.mem_map.mp hx
+    exact lineTextRes_mirror l)]
+  simp [bind, Except.bind, pure, Except.pure, List.filterMap_map, Function.comp_def]
 
 theorem lookup_cell_attr (c : SrcCell) (k : String) (hk : k.toList.head? = some '@') :
     lookup k (cellEntries c) = lookup k (attrEntries ([("id", c.id), ("row", natStr c.row), ("col", natStr c.col)]
@@ -119,14 +124,7 @@ theorem parseCell_render (c : SrcCell) (h : cellOk c = true) :
   simp only [cellOk, Bool.and_eq_true, Bool.not_eq_true', List.all_eq_true] at h
   obtain ⟨⟨⟨hco, hls⟩, hor⟩, hcn⟩ := h
   have hco' : c.coords ≠ [] := by intro e; rw [e] at hco; simp at hco
-  have hlok : ∀ l ∈ c.lines, lineOk l = true := fun l hl => (hls l hl).1
-  have hltx : ∀ l ∈ c.lines, ∃ s, (mirrorLine l).text = .str s := by
-    intro l hl
-    have := (hls l hl).2
-    cases ht : (mirrorLine l).text with
-    | str s => exact ⟨s, rfl⟩
-    | none => rw [ht] at this; simp at this
-    | other => rw [ht] at this; simp at this
+  have hlok : ∀ l ∈ c.lines, lineOk l = true := hls
   have hA : ∀ k, k.toList.head? ≠ some '@' → lookup k (attrEntries ([("id", c.id), ("row", natStr c.row), ("col", natStr c.col)]
       ++ optAttr "rowSpan" (c.rowSpan.map natStr) ++ optAttr "cellSpan" (c.colSpan.map natStr)
       ++ optAttr "header" c.header ++ optAttr "orientation" c.orientation ++ optAttr "custom" c.custom)) = none :=
@@ -193,7 +191,7 @@ theorem parseCell_render (c : SrcCell) (h : cellOk c = true) :
     rw [hget _ (by decide)]; simp
   have hpl : ∀ hl : c.lines ≠ [], parseLineList (collapse (lineVals c.lines)) = .ok (c.lines.map mirrorLine) :=
     fun hl => parseLineList_render c.lines hl hlok
-  have hcv := cellValue_mirror c.lines hltx
+  have hcv := cellValue_mirror c.lines
   have hpc := parseCoords_points c.coords hco'
   unfold parseCell
   simp only [hTL, pyGet, hidl, hrow, hcol, hrsp, hcsp, hhd, horl, hCo, hCp, ptsDict]
@@ -212,7 +210,7 @@ theorem parseCell_render (c : SrcCell) (h : cellOk c = true) :
     rw [ht] at hcn
     simp only [bne_iff_ne, ne_eq] at hcn
     simp [textVal, hcn]
-  clear hattr hget hA optInt hTL hCo hCp hrow hcol hrsp hcsp hhd hidl horl hls hcn hor hltx hlok hpl
+  clear hattr hget hA optInt hTL hCo hCp hrow hcol hrsp hcsp hhd hidl horl hls hcn hor hlok hpl
   by_cases hl : c.lines = []
   · simp only [hl, if_true, List.map_nil] at hcv hlines ⊢
     cases ho : c.orientation with
